@@ -288,6 +288,11 @@ def dict_node(draw, lays, depth, fmt=True):
 def plist_node(draw, lays, depth, fmt=True):
     n = draw(st.integers(0, 3))
     items = [draw(dict_value(lays, depth + 1, fmt)) for _ in range(n)]
+    if draw(st.integers(0, 4)) == 0:
+        # a list made only of observables *nested inside a list* is exported element by element (one Obs structure each),
+        # so its members may live on different layouts
+        inner = [draw(structure(lays, kinds=('obs',), small=True, fmt=fmt)) for _ in range(draw(st.integers(2, 3)))]
+        items.append({'t': 'plist', 'items': inner})
     node = {'t': 'plist', 'items': items}
     for it in items:
         # a list of Obs nested directly inside a python list is exported element by element as single-Obs structures
